@@ -13,6 +13,9 @@ EXTRA = [
     ('exec', 'def f(a, b=1, /, c=2, *, d, e=3, **k): pass\ndef g(a=1, b=2, /, c=3): pass\ndef h(a, /, b, c=1): pass\n'
              'def i(*, a, b=1, c): pass\ndef j(*a, b=1): pass\ndef k(a, b, /): pass\ndef l(a=1, /): pass\n'
              'def m(a: int = 1, *b: int, c: str, d: str = "x", **e: dict) -> None: pass\n'),
+    # one kind of parameter only (each emptiness test of `arguments` on its own)
+    ('exec', 'def o(**k): pass\ndef p(*a): pass\ndef q(a, /): pass\ndef r(*, a): pass\ndef s(a): pass\ndef t(): pass\n'
+             'u = lambda **k: k\nv = lambda *a: a\nw = lambda a, /: a\nx = lambda *, a: a\ny = lambda a: a\nz = [lambda: 0, lambda **k: 1]\n'),
     ('exec', 'x = lambda: 0\ny = lambda a, b=1, /, c=2, *d, e, f=3, **g: (a, b)\nz = lambda *, a=1: a\nw = lambda a=1, /, b=2: a\nv = lambda *a, **k: a\n'),
     # Dict with ** unpacking, MatchMapping with rest, MatchClass with keywords
     ('exec', 'd = {**a, "k": v, **b, 1: 2, **c}\ne = {**a}\nf = {}\ng = {k: v for k, v in it if k if v}\n'),
